@@ -842,8 +842,8 @@ fn arb_target() -> impl Strategy<Value = String> {
 
 fn arb_route() -> impl Strategy<Value = RouteM> {
     let kind = prop_oneof![
-        2 => "/[a-z/]{1,12}\\.(html|png|txt)".prop_map(RouteKind::File),
-        3 => "(/[a-z]{1,6}){1,3}/?".prop_map(RouteKind::Directory),
+        2 => prop_oneof![3 => "/[a-z/]{1,12}\\.(html|png|txt)", 1 => "/[a-z]{1,5}( {1,3}|\t| \t )[a-z]{1,5}\\.(html|txt)", 1 => " {1,2}/[a-z]{1,6}\\.txt {1,2}"].prop_map(RouteKind::File),
+        3 => prop_oneof![3 => "(/[a-z]{1,6}){1,3}/?", 1 => "/[a-z]{1,4}( {1,3}|\t)[a-z]{1,4}(/[a-z]{1,4} {2}[a-z]{1,3})?/?"].prop_map(RouteKind::Directory),
         2 => (proptest::collection::vec(arb_target(), 1..4), proptest::option::of(any::<bool>())).prop_map(|(t, m)| RouteKind::Proxy(t, m)),
         2 => prop_oneof![Just("/".to_string()), Just("http://localhost/".to_string()), "https://[a-z]{3,8}\\.example/[a-z]{0,5}"].prop_map(RouteKind::Redirect),
         1 => Just(RouteKind::WsOnly),
@@ -873,7 +873,7 @@ pub fn arb_model() -> impl Strategy<Value = ConfM> {
         proptest::option::of((
             proptest::option::of(prop_oneof![Just("error".to_string()), Just("warn".to_string()), Just("info".to_string()), Just("debug".to_string()), Just("INFO".to_string()), Just("Debug".to_string())]),
             proptest::option::of(any::<bool>()),
-            proptest::option::of("[a-z]{1,8}\\.log"),
+            proptest::option::of(prop_oneof![3 => "[a-z]{1,8}\\.log", 1 => "[a-z]{1,4}( {1,3}|\t)[a-z]{1,4}\\.log"]),
         )),
         proptest::option::of((proptest::option::of((prop_oneof![Just(0u64), Just(1), Just(128), 0u64..5000], unit)), proptest::option::of(prop_oneof![Just(0usize), Just(60), 0usize..100000]))),
         proptest::collection::vec(arb_host(), 0..5),
@@ -905,7 +905,7 @@ fn model_nontrivial(m: &ConfM) -> bool {
 
 pub fn run(ctx: &Ctx) {
     ctx.rule("a ConfModel (address, port, threads, timeout, websocket, blacklist file+mode, log, cache size with K/M/G in either case + time, 0..4 hosts, 0..8 routes of every type incl. multi-pattern routes and proxy target lists, noise keys/sections) is rendered with random indentation, comments, blank lines, key order and include-file splitting (nested to 3, plus a comments-only file included at up to three places), in three layouts; the loaded Config must equal the model field by field. Single-fault mutants (missing { / }, missing value, bad number, bad enum, unknown unit, unterminated quote, out-of-range port/threads, a non-ASCII character at a random position) must be rejected with file and line for syntax faults and never crash. Non-trivial: model with >=1 host and a multi-pattern route, or a size unit, or an include; mutants: fault not on the first line; distinct by model/mutant");
-    ctx.assume("no duplicate keys within a section, no `#` inside quoted values, single spaces only as key/value separator tabs only in indentation, `server {` spelled exactly; proxy target lists without spaces");
+    ctx.assume("no duplicate keys within a section, no `#` inside quoted values (runs of spaces and tabs inside quoted file, directory and log-file values are generated and must survive), single spaces only as key/value separator, tabs only in indentation, `server {` spelled exactly; proxy target lists without spaces");
     ctx.exclude("`#` inside quoted strings (documented comment rule makes it ambiguous)", 0);
     let cases = ctx.tier.pick(1_600u32, 48_000u32);
     crate::engine::shards(16, |i| {
